@@ -375,12 +375,63 @@ def rule_cover(run):
                      'around a new mid-side node (hanging node, and the old connection is deleted without replacement)' % ' and '.join(missing),
                      where=fi.where(asg[0]))
     else: run.ok(key, sorted(ops), where=fi.where(asg[0]))
-    # the late additions to `connections` only concern edge columns (already in the set)
-    late = [n for n in ast.walk(fi.node) if isinstance(n, ast.If) and 'bisect_edge_columns' in norm(n.test) and
-            any(isinstance(c, ast.Call) and norm(c) == 'connections.add(con)' for c in ast.walk(n))]
-    if late:
-        r = compare(late[0].test, 'all([concol in bisect_edge_columns for concol in con.column])')
-        run.shape(r == 'equal', 'mulgrid.refine :: connections added late join edge columns only', 'guard %s' % norm(late[0].test), where=fi.where(late[0]))
+    # connections added to the refined set *after* the rebuilt set was closed over the connections' columns must join
+    # rebuilt columns only: the guard has to imply con.column <= (an operand of the rebuilt set)
+    closure = [n for n in walk_no_nested(fi.node) if isinstance(n, ast.For) and
+               any(isinstance(x, ast.Assign) and norm(x.targets[0]) == 'columns_plus_edge' for x in ast.walk(n))]
+    after = closure[-1].lineno if closure else asg[-1].lineno
+    rebuilt_ops = set(['columns_plus_edge'])
+    for o in ops:
+        if o.startswith('set(') and o.endswith(')'): rebuilt_ops.add(o[4:-1])
+    from ..core import parent_map
+    pm = parent_map(fi.node)
+    refined_set = None
+    for n in walk_no_nested(fi.node):       # the set the mid-side-node loop iterates
+        if isinstance(n, ast.For) and any(isinstance(c, ast.Call) and call_name(c) == 'create_mid_node' and
+                                          any('.node[0]' in norm(a_) for a_ in c.args) for c in ast.walk(n)):
+            refined_set = norm(n.iter)
+    late = [c for c in ast.walk(fi.node) if isinstance(c, ast.Call) and call_name(c) == 'add' and refined_set and
+            norm(c.func.value) == refined_set and c.lineno > after]
+
+    def membership(test, convar):
+        """'pos' if the test implies every column of the connection is in a rebuilt operand, 'neg' if it only excludes sets, else None"""
+        t = test
+        if isinstance(t, ast.BoolOp) and isinstance(t.op, ast.And):
+            r = [membership(v, convar) for v in t.values]
+            return 'pos' if 'pos' in r else ('neg' if r and all(x == 'neg' for x in r) else None)
+        neg = False
+        if isinstance(t, ast.UnaryOp) and isinstance(t.op, ast.Not): neg, t = True, t.operand
+        if isinstance(t, ast.Call) and isinstance(t.func, ast.Name) and t.func.id in ('all', 'any') and t.args and \
+           isinstance(t.args[0], (ast.ListComp, ast.GeneratorExp)):
+            lc = t.args[0]
+            g = lc.generators[0]
+            if norm(g.iter) == '%s.column' % convar and isinstance(g.target, ast.Name) and isinstance(lc.elt, ast.Compare) and \
+               len(lc.elt.ops) == 1 and isinstance(lc.elt.left, ast.Name) and lc.elt.left.id == g.target.id:
+                inn = isinstance(lc.elt.ops[0], ast.In); notin = isinstance(lc.elt.ops[0], ast.NotIn)
+                S = norm(lc.elt.comparators[0])
+                if t.func.id == 'all' and inn and not neg and S in rebuilt_ops: return 'pos'
+                if (t.func.id == 'any' and inn and neg) or (t.func.id == 'all' and notin and not neg): return 'neg'
+        if isinstance(t, ast.Compare) and len(t.ops) == 1 and isinstance(t.ops[0], ast.LtE) and not neg and \
+           norm(t.left) == 'set(%s.column)' % convar and norm(t.comparators[0]).replace('set(', '').rstrip(')') in rebuilt_ops: return 'pos'
+        return None
+    for c in late:
+        k2 = 'mulgrid.refine :: connections refined after the rebuilt set is fixed join rebuilt columns only'
+        convar = norm(c.args[0]) if c.args else None
+        guard, cur = None, c
+        while cur in pm:
+            par = pm[cur]
+            if isinstance(par, ast.If) and cur in par.body: guard = par; break
+            cur = par
+        if guard is None or convar is None:
+            run.violated(k2, '`%s` adds a connection to the set that receives mid-side nodes without any condition on its columns: a column '
+                         'outside the rebuilt set is left with a hanging node' % norm(c), where=fi.where(c)); continue
+        m = membership(guard.test, convar)
+        if m == 'pos': run.ok(k2, norm(guard.test), where=fi.where(guard))
+        elif m == 'neg':
+            run.violated(k2, 'the guard `%s` only excludes columns; it does not require both columns of the connection to be among the rebuilt '
+                         'ones (%s), so a side shared with a column that is not rebuilt gets a mid-side node: that column is left with a '
+                         'node in the interior of its edge' % (norm(guard.test), sorted(rebuilt_ops)), where=fi.where(guard))
+        else: run.unknown(k2, 'guard `%s` not recognised' % norm(guard.test), where=fi.where(guard))
 
 
 def rule_areasync(run):
@@ -499,7 +550,102 @@ def rule_part(run):
     check_return(run, 'layer.thickness :: top - bottom', th, 'self.top - self.bottom', 'thickness is not top - bottom')
 
 
+def _affine(e, var, modnames):
+    """index expression -> integer offset c such that e == var + c (optionally `% n`), else None"""
+    if isinstance(e, ast.BinOp) and isinstance(e.op, ast.Mod) and (norm(e.right) in modnames):
+        return _affine(e.left, var, modnames)
+    if isinstance(e, ast.Name) and e.id == var: return 0
+    if isinstance(e, ast.BinOp) and isinstance(e.op, (ast.Add, ast.Sub)):
+        l, r = e.left, e.right
+        if isinstance(r, ast.Constant) and isinstance(r.value, int):
+            a = _affine(l, var, modnames)
+            if a is not None: return a + (r.value if isinstance(e.op, ast.Add) else -r.value)
+        if isinstance(l, ast.Constant) and isinstance(l.value, int) and isinstance(e.op, ast.Add):
+            a = _affine(r, var, modnames)
+            if a is not None: return a + l.value
+    return None
+
+
+def rule_angle_index(run):
+    run.rule('ANGIDX', 'column.exterior_angles[k] is the angle at node k (decompose_column uses the position of a straight angle as '
+             'the node to start its tiling from): with side[j] running node[j+a0] -> node[j+a1] and angle[k] formed from '
+             'heading[k+b1] - heading[k+b0], the incoming side must end and the outgoing side must start at node k, '
+             'i.e. b0 + a1 = 0 and b1 + a0 = 0 (indices modulo the node count)', floor=1)
+    fi = run.prog.func('mulgrids.column.get_exterior_angles')
+    key = 'column.get_exterior_angles :: angle k sits at node k'
+    # n (node count) may be self.num_nodes or a local alias of it
+    nn = set(['self.num_nodes', 'len(self.node)'])
+    for st in walk_no_nested(fi.node):
+        if isinstance(st, ast.Assign) and isinstance(st.targets[0], ast.Name) and norm(st.value) in nn: nn.add(st.targets[0].id)
+    lists = {}      # name -> ('side', a1, a0) | ('map', src) | ('angle', src, b1, b0)
+    order = []
+    for st in fi.node.body:
+        if not (isinstance(st, ast.Assign) and isinstance(st.targets[0], ast.Name) and isinstance(st.value, ast.ListComp)): continue
+        name, lc = st.targets[0].id, st.value
+        g = lc.generators[0]
+        if len(lc.generators) != 1 or g.ifs: continue
+        ent = None
+        if isinstance(g.target, ast.Name) and isinstance(g.iter, ast.Call) and call_name(g.iter) == 'range' and \
+           len(g.iter.args) == 1 and norm(g.iter.args[0]) in nn:
+            v = g.target.id
+            subs = [x for x in ast.walk(lc.elt) if isinstance(x, ast.Subscript)]
+            nodes = [x for x in subs if is_self_attr(x.value, 'node')]
+            if isinstance(lc.elt, ast.BinOp) and isinstance(lc.elt.op, ast.Sub) and len(nodes) == 2:
+                # self.node[i1].pos - self.node[i0].pos
+                def idx(side_expr):
+                    ss = [x for x in ast.walk(side_expr) if isinstance(x, ast.Subscript) and is_self_attr(x.value, 'node')]
+                    return _affine(ss[0].slice, v, nn) if len(ss) == 1 else None
+                a1, a0 = idx(lc.elt.left), idx(lc.elt.right)
+                if a1 is not None and a0 is not None: ent = ('side', a1, a0)
+            else:
+                hs = [x for x in subs if isinstance(x.value, ast.Name) and x.value.id in lists]
+                diffs = [x for x in ast.walk(lc.elt) if isinstance(x, ast.BinOp) and isinstance(x.op, ast.Sub) and
+                         isinstance(x.left, ast.Subscript) and isinstance(x.right, ast.Subscript) and x.left in hs and x.right in hs]
+                if len(diffs) == 1 and len(hs) == 2 and diffs[0].left.value.id == diffs[0].right.value.id:
+                    b1, b0 = _affine(diffs[0].left.slice, v, nn), _affine(diffs[0].right.slice, v, nn)
+                    if b1 is not None and b0 is not None: ent = ('angle', diffs[0].left.value.id, b1, b0)
+        elif isinstance(g.target, ast.Name) and isinstance(g.iter, ast.Name) and g.iter.id in lists:
+            # element-wise map keeps the index
+            others = [x for x in ast.walk(lc.elt) if isinstance(x, ast.Name) and x.id in lists]
+            if not others: ent = ('map', g.iter.id)
+        if ent: lists[name] = ent; order.append((name, ent))
+    ret = [r for r in walk_no_nested(fi.node) if isinstance(r, ast.Return)]
+    if len(ret) != 1 or not isinstance(ret[0].value, ast.Name) or ret[0].value.id not in lists:
+        run.unknown(key, 'returned list not recognised (%s)' % sorted(lists), where=fi.where()); return
+
+    def resolve(name):
+        e = lists[name]
+        # a name may be rebound (angles = [a % 2pi for a in angles]): walk the chain of definitions backwards
+        chain = [x for x in order if x[0] == name]
+        return chain
+    # fold definitions in order
+    env = {}
+    for name, ent in order:
+        if ent[0] == 'side': env[name] = ('side', ent[1], ent[2])
+        elif ent[0] == 'map' and ent[1] in env: env[name] = env[ent[1]]
+        elif ent[0] == 'angle' and ent[1] in env and env[ent[1]][0] == 'side':
+            _, a1, a0 = env[ent[1]]
+            env[name] = ('angle', ent[2] + a1, ent[3] + a0, ent[2], ent[3], a1, a0)      # outgoing side index b1: ends...; see below
+    r = env.get(ret[0].value.id)
+    if not r or r[0] != 'angle':
+        run.unknown(key, 'chain side -> heading -> angle not recognised', where=fi.where()); return
+    _, _x, _y, b1, b0, a1, a0 = r
+    # side j runs node[j+a0] -> node[j+a1]; incoming side (index k+b0) ends at node k+b0+a1; outgoing (k+b1) starts at node k+b1+a0
+    if a1 - a0 != 1:
+        run.unknown(key, 'sides do not join consecutive nodes (offsets %d, %d)' % (a1, a0), where=fi.where()); return
+    if b1 - b0 != 1:
+        run.violated(key, 'the angle is formed from headings %d apart, not from two consecutive sides' % (b1 - b0), where=fi.where(ret[0])); return
+    vin, vout = b0 + a1, b1 + a0
+    if vin == 0 and vout == 0:
+        run.ok(key, {'side': 'node[j%+d] -> node[j%+d]' % (a0, a1), 'angle': 'heading[k%+d] - heading[k%+d]' % (b1, b0)}, where=fi.where())
+    else:
+        run.violated(key, 'side j runs node[j%+d] -> node[j%+d] and angle k uses headings k%+d and k%+d, so angle k is the angle at node k%+d, '
+                     'not at node k: decompose_column starts its special-case tilings from the index of a straight angle and now starts '
+                     'one node off (zero-area triangle, hanging node)' % (a0, a1, b1, b0, vin), where=fi.where(ret[0]))
+
+
 def check(run):
+    run.guarded('ANGIDX', rule_angle_index)
     run.guarded('TILE', rule_tile)
     run.guarded('DISPATCH', rule_dispatch)
     run.guarded('DECOMP', rule_decomp_dispatch)
